@@ -121,7 +121,7 @@ pub fn generate(property: &str, seed: u64, tier: Tier) -> Plan {
     }
     // C18 / C19: accounts with attachments (external file blobs) and several
     // folders with flags and descriptions; spliced in from an independent stream
-    if matches!(property, "C18" | "C19") {
+    if matches!(property, "C16" | "C18" | "C19") {
         let mut xr = Rng::new(seed).fork("acct.attachments");
         let n = xr.range(0, 3);
         for k in 0..n {
